@@ -60,7 +60,7 @@ Row labels that differ between the events (whole tables, `Model/ExtremaLabels.le
 
   mergelists ; a b c ; c d                        → `merged… | pv1… | pv2…`         (`locate.merge_lists`)
   labform d nc ; j case useExt hasX hasMx n lab₁…lab_n (hv hx hlab lv lx llab)×n ; …   (one segment per event)
-        → `value-error j` | `key-error j` | `none` |
+        → `value-error j` | `none` |
           `lab… | hasX | hv hx hlab lv lx llab , mx… , mn… , mx_x… , mn_x… | (next row) …`
   split ; case|- mx mn mx_x mn_x ; …  (one segment per column)  → `case mx mn mx_x mn_x , …` | `type-error`
   ufdef ; -|(p/q|none)×4 ; -|(p/q|none)×4     (defaults['uf_reds'], the uf_reds argument; `-` = absent)
@@ -439,7 +439,8 @@ def pEv (s : String) : Option (PyYetiVerif.ExtremaLabels.Ev Int Int String) :=
     let n ← n.toNat?
     if rest.length != 7 * n then none else
     let rows ← pRows n (rest.drop n)
-    pure ⟨j, case, u == "1", ⟨rest.take n, hx == "1", hm == "1", rows⟩⟩
+    let _ := hm  -- (whether the event has per-case members: no longer matters, fix 40cd789)
+    pure ⟨j, case, u == "1", ⟨rest.take n, hx == "1", rows⟩⟩
   | _ => none
 
 def fARow (r : PyYetiVerif.ExtremaLabels.ARow Int Int) : String :=
@@ -452,7 +453,6 @@ def labFormOp (d nc : Nat) (body : List String) : String :=
   | some evs =>
     match PyYetiVerif.ExtremaLabels.formCat d nc none evs with
     | .error (.value, j) => s!"value-error {j}"
-    | .error (.key, j) => s!"key-error {j}"
     | .ok none => "none"
     | .ok (some a) =>
       " ".intercalate a.labels ++ " | " ++ (if a.hasX then "1" else "0") ++ " | " ++
